@@ -21,10 +21,11 @@ import (
 	"fmt"
 	"os"
 	"path/filepath"
-	"runtime/pprof"
+	"strings"
 	"sync/atomic"
 
 	iec "github.com/nspcc-dev/neofs-node/internal/ec"
+	objectcore "github.com/nspcc-dev/neofs-node/pkg/core/object"
 	"github.com/nspcc-dev/neofs-node/pkg/local_object_storage/blobstor/fstree"
 	"github.com/nspcc-dev/neofs-node/pkg/local_object_storage/engine"
 	"github.com/nspcc-dev/neofs-node/pkg/local_object_storage/shard"
@@ -32,6 +33,7 @@ import (
 	"github.com/nspcc-dev/neofs-node/verif/lib/enumx"
 	"github.com/nspcc-dev/neofs-node/verif/lib/ev"
 	sw "github.com/nspcc-dev/neofs-node/verif/worlds/shardworld"
+	"github.com/nspcc-dev/neofs-node/verif/worlds/shardworld/procpool"
 	apistatus "github.com/nspcc-dev/neofs-sdk-go/client/status"
 	"github.com/nspcc-dev/neofs-sdk-go/container"
 	cid "github.com/nspcc-dev/neofs-sdk-go/container/id"
@@ -95,7 +97,10 @@ func allowed(c tcase) bool {
 }
 
 // why classifies a forbidden discard (structural class for the fingerprint).
-func why(c tcase) string {
+func why(c tcase, o outcome) string {
+	if c.Path == "shard-history" && o.DiscardAt != 1 {
+		c.Epoch = c.Epoch2 // the second event did it
+	}
 	switch {
 	case !c.PaymentsOn && c.Source == srcFound:
 		return "payments-disabled"
@@ -117,7 +122,7 @@ func why(c tcase) string {
 		return "payment-check-error"
 	case c.Unpaid < 0:
 		return "container-is-paid"
-	case c.Unpaid > c.Epoch || (c.Path == "shard-history" && c.Unpaid > c.Epoch2):
+	case c.Unpaid > c.Epoch:
 		return "unpaid-mark-newer-than-processed-epoch"
 	default:
 		return "unpaid-for-less-than-3-epochs"
@@ -180,6 +185,8 @@ type outcome struct {
 	UnreadableA, UnreadableB int // objects not readable right after the action
 	RemovedA, RemovedB       int // objects whose blob file is gone after GC passes
 	PayCalls                 int
+	DiscardAt                int    `json:",omitempty"` // shard-history: 1 if container A was already unreadable after the first event
+	Err                      string `json:",omitempty"` // harness error
 }
 
 func (o outcome) discardedA() bool { return o.UnreadableA+o.RemovedA > 0 }
@@ -198,7 +205,7 @@ func observe(sh *shard.Shard, fst *fstree.FSTree, o *outcome) error {
 		}
 	}
 	for i := 0; i < 3; i++ {
-		sh.VerifGCPass()
+		sh.VerifSWGCPass()
 	}
 	for _, l := range objsA {
 		if ok, err := fst.Exists(sw.Addr("A", l)); err != nil {
@@ -217,91 +224,152 @@ func observe(sh *shard.Shard, fst *fstree.FSTree, o *outcome) error {
 	return nil
 }
 
-func run(c tcase) (outcome, error) {
-	var o outcome
-	dir := filepath.Join(scratch, fmt.Sprintf("case-%d", caseSeq.Add(1)))
-	defer os.RemoveAll(dir)
-	if err := sw.CopyTree(image, dir); err != nil {
-		return o, err
-	}
-	cA, cB := sw.CID("A"), sw.CID("B")
-	pay := &sw.Payments{Disabled: !c.PaymentsOn, Unpaid: map[cid.ID]int64{cA: int64(c.Unpaid)}, Err: map[cid.ID]error{}}
-	if c.PayErr {
-		pay.Err[cA] = errors.New("FS chain RPC call: timeout")
-	}
-	ep := &sw.Epoch{}
-	ep.Set(uint64(c.Epoch))
-	cfg := sw.Config{Dir: dir, Payments: pay, Epoch: ep}
-	ans := map[cid.ID]error{cA: srcErr(c.Source), cB: nil}
+// live is one open world kept by a worker. With -tier quick it is reused for the next case as long
+// as the previous case left the image pristine (every object readable, every blob file present);
+// thorough builds a fresh one for every case.
+type live struct {
+	dir    string
+	w      *sw.World             // shard paths
+	e      *engine.StorageEngine // engine / policer paths
+	sh     *shard.Shard
+	fst    *fstree.FSTree
+	pay    *sw.Payments
+	ep     *sw.Epoch
+	srcAns map[cid.ID]error // answers of the engine's container source
+	inits  int              // StorageEngine.Init calls so far
+}
 
-	switch c.Path {
-	case "shard", "shard-history":
+var (
+	reuse     bool
+	liveShard *live
+	liveEng   *live
+	opens     int
+)
+
+func (l *live) destroy() error {
+	var err error
+	if l.w != nil {
+		err = l.w.Close()
+	}
+	if l.e != nil {
+		err = l.e.Close()
+	}
+	os.RemoveAll(l.dir)
+	return err
+}
+
+func newLive(withEngine bool) (*live, error) {
+	l := &live{dir: filepath.Join(scratch, fmt.Sprintf("case-%d", caseSeq.Add(1))), pay: &sw.Payments{}, ep: &sw.Epoch{}, srcAns: map[cid.ID]error{}}
+	opens++
+	if err := sw.CopyTree(image, l.dir); err != nil {
+		return nil, err
+	}
+	cfg := sw.Config{Dir: l.dir, Payments: l.pay, Epoch: l.ep}
+	if !withEngine {
 		w, err := sw.Open(cfg)
 		if err != nil {
-			return o, err
+			return nil, err
 		}
-		defer w.Close()
-		w.HandleEpochEvent(uint64(c.Epoch))
-		if c.Path == "shard-history" {
-			w.HandleEpochEvent(uint64(c.Epoch2))
-		}
-		o.PayCalls = len(pay.Calls)
-		return o, observe(w.Sh, w.FST, &o)
-	case "engine", "policer":
-		opts, _, fst, err := sw.ShardOptions(cfg)
+		l.w, l.sh, l.fst = w, w.Sh, w.FST
+		return l, nil
+	}
+	opts, _, fst, err := sw.ShardOptions(cfg)
+	if err != nil {
+		return nil, err
+	}
+	l.e = engine.New(engine.WithLogger(zap.NewNop()), engine.WithContainersSource(source{l.srcAns}))
+	if _, err := l.e.AddShard(opts...); err != nil {
+		return nil, fmt.Errorf("add shard: %w", err)
+	}
+	shs := l.e.VerifC47Shards()
+	if len(shs) != 1 {
+		return nil, fmt.Errorf("engine has %d shards", len(shs))
+	}
+	l.sh, l.fst = shs[0], fst
+	return l, nil
+}
+
+func run(c tcase) (outcome, error) {
+	var o outcome
+	withEngine := c.Path == "engine" || c.Path == "policer"
+	slot := &liveShard
+	if withEngine {
+		slot = &liveEng
+	}
+	if *slot == nil {
+		l, err := newLive(withEngine)
 		if err != nil {
 			return o, err
 		}
-		var e *engine.StorageEngine
-		if c.Path == "engine" {
-			e = engine.New(engine.WithLogger(zap.NewNop()), engine.WithContainersSource(source{ans}))
-		} else {
-			e = engine.New(engine.WithLogger(zap.NewNop()))
+		*slot = l
+	}
+	l := *slot
+	cA := sw.CID("A")
+	l.pay.Disabled = !c.PaymentsOn
+	l.pay.Unpaid = map[cid.ID]int64{cA: int64(c.Unpaid)}
+	l.pay.Err = map[cid.ID]error{}
+	l.pay.Calls = nil
+	if c.PayErr {
+		l.pay.Err[cA] = errors.New("FS chain RPC call: timeout")
+	}
+	l.ep.Set(uint64(c.Epoch))
+
+	var err error
+	switch c.Path {
+	case "shard", "shard-history":
+		l.w.HandleEpochEvent(uint64(c.Epoch))
+		if c.Path == "shard-history" {
+			if _, gerr := l.sh.Get(sw.Addr("A", objsA[0]), false); gerr != nil {
+				o.DiscardAt = 1
+			}
+			l.w.HandleEpochEvent(uint64(c.Epoch2))
 		}
-		if _, err := e.AddShard(opts...); err != nil {
-			return o, fmt.Errorf("add shard: %w", err)
+		o.PayCalls = len(l.pay.Calls)
+	case "engine":
+		l.srcAns[cA] = srcErr(c.Source)
+		err = l.e.Init() // start-up cleanup runs here
+		l.inits++
+	case "policer":
+		if l.inits == 0 { // regular start-up with every container present
+			l.srcAns[cA] = nil
+			err = l.e.Init()
+			l.inits++
 		}
-		if err := e.Init(); err != nil { // start-up cleanup runs here
-			_ = e.Close()
-			return o, fmt.Errorf("engine init: %w", err)
-		}
-		if c.Path == "policer" {
-			p := policer.New(nil, policer.WithLogger(zap.NewNop()), policer.WithLocalStorage(e), policer.WithNetwork(network{ans}))
+		if err == nil {
+			p := policer.New(nil, policer.WithLogger(zap.NewNop()), policer.WithLocalStorage(l.e),
+				policer.WithNetwork(network{map[cid.ID]error{cA: srcErr(c.Source)}}))
 			ctx := context.Background()
-			lst, _, err := e.ListWithCursor(ctx, 100, nil, iec.AttributeRuleIdx, iec.AttributePartIdx, object.FilterParentID)
-			if err != nil || len(lst) != len(objsA)+len(objsB) {
-				_ = e.Close()
-				return o, fmt.Errorf("engine list: %d objects, err %v", len(lst), err)
+			var lst []objectcore.AddressWithAttributes
+			lst, _, err = l.e.ListWithCursor(ctx, 100, nil, iec.AttributeRuleIdx, iec.AttributePartIdx, object.FilterParentID)
+			if err == nil && len(lst) != len(objsA)+len(objsB) {
+				err = fmt.Errorf("engine lists %d objects", len(lst))
 			}
 			for _, a := range lst {
 				p.VerifC47ProcessObject(ctx, a)
 			}
 		}
-		// look at what is left through the engine's own shard object. Nothing below announces an
-		// epoch, so the observation itself cannot trigger a payment-based discard.
-		shs := e.VerifC47Shards()
-		if len(shs) != 1 {
-			_ = e.Close()
-			return o, fmt.Errorf("engine has %d shards", len(shs))
-		}
-		err = observe(shs[0], fst, &o)
-		if cerr := e.Close(); err == nil && cerr != nil {
-			err = fmt.Errorf("engine close: %w", cerr)
-		}
-		return o, err
+	default:
+		err = fmt.Errorf("unknown path %q", c.Path)
 	}
-	return o, fmt.Errorf("unknown path %q", c.Path)
+	if err == nil {
+		// Look at what is left through the same shard object. Nothing below announces an epoch,
+		// so the observation itself cannot trigger a payment-based discard.
+		err = observe(l.sh, l.fst, &o)
+	}
+	if !reuse || err != nil || o.discardedA() || o.discardedB() {
+		*slot = nil
+		if derr := l.destroy(); err == nil && derr != nil {
+			err = fmt.Errorf("close: %w", derr)
+		}
+	}
+	return o, err
 }
 
 func main() {
 	r := ev.Start("C47", ev.Exploration)
-	if pf := os.Getenv("C47_CPUPROFILE"); pf != "" {
-		f, _ := os.Create(pf)
-		pprof.StartCPUProfile(f)
-		defer pprof.StopCPUProfile()
-	}
-	scratch = sw.NewDir("verif-c47-")
-	defer os.RemoveAll(scratch)
+	scratch = procpool.Scratch("verif-c47-")
+	finish := func() { os.RemoveAll(scratch); r.Finish() }
+	reuse = r.Quick()
 	buildImage(r)
 
 	var discards, forbidden atomic.Int64
@@ -310,11 +378,18 @@ func main() {
 	for _, k := range []string{"kept", "unreadable", "unreadable+removed"} {
 		classes[k] = &atomic.Int64{}
 	}
-	check := func(c tcase) {
-		r.Eval(1)
+	exec := func(c tcase) outcome {
 		o, err := run(c)
 		if err != nil {
-			r.Fatal("%+v: %v", c, err)
+			o.Err = err.Error()
+		}
+		return o
+	}
+	check := func(c tcase, o outcome) {
+		r.Eval(1)
+		if o.Err != "" {
+			os.RemoveAll(scratch)
+			r.Fatal("%+v: %v", c, o.Err)
 		}
 		cls := "kept"
 		if o.discardedA() {
@@ -327,11 +402,11 @@ func main() {
 		}
 		classes[cls].Add(1)
 		if o.discardedB() {
-			r.Violation(c.Path+":control-container-discarded", fmt.Sprintf("%+v: container B (present and paid) lost data: %+v", c, o), c)
+			r.Violation(strings.TrimSuffix(c.Path, "-history")+":control-container-discarded", fmt.Sprintf("%+v: container B (present and paid) lost data: %+v", c, o), c)
 		}
 		if o.discardedA() && !allowed(c) {
 			forbidden.Add(1)
-			r.Violation(c.Path+":discarded:"+why(c),
+			r.Violation(strings.TrimSuffix(c.Path, "-history")+":discarded:"+why(c, o),
 				fmt.Sprintf("%+v (source=%s): container A's objects were discarded (%+v) although the source did not report it absent and it is not unpaid for >=3 epochs counted from the processed epoch", c, srcName[c.Source], o), c)
 		}
 		// non-trivial: the inputs could plausibly lead to a discard decision (an unpaid mark exists, or the source did not answer "found")
@@ -345,8 +420,8 @@ func main() {
 	if r.Replay != "" {
 		var c tcase
 		r.LoadReplay(&c)
-		check(c)
-		r.Finish()
+		check(c, exec(c))
+		finish()
 	}
 	var cases []tcase
 	for _, path := range []string{"shard", "engine", "policer"} {
@@ -360,7 +435,13 @@ func main() {
 		cases = append(cases, tcase{Path: "shard-history", Epoch: ix[0], Epoch2: ix[1], Unpaid: ix[2] - 1, PaymentsOn: true, Source: srcFound, PayErr: ix[3] == 1})
 		return true
 	})
-	enumx.Parallel(len(cases), func(i int) { check(cases[i]) })
+	// one job = one case on a private copy of the image, in a pool of worker processes
+	pool := procpool.Start(exec)
+	outs, _ := pool.Map(cases, nil)
+	pool.Close()
+	for i := range cases {
+		check(cases[i], outs[i])
+	}
 
 	for p, n := range perPath {
 		r.Set("discards_via_"+p, n.Load())
@@ -382,6 +463,5 @@ func main() {
 	r.Assume("the payments stub returns (0, err) on a payment-check error like cmd/neofs-node's paymentChecker",
 		"the container source / policer network are table-driven fakes plugged through the exported interfaces; 'definitively absent' = error chain contains apistatus.ContainerNotFound",
 		"discard = an object of the container stops being readable via Shard.Get or its blob file disappears after 3 synchronous GC passes")
-	pprof.StopCPUProfile()
-	r.Finish()
+	finish()
 }
